@@ -38,6 +38,7 @@ func genC05(rng *rand.Rand, n int, emit func(Case), dist map[string]int) {
 		var keys []string
 		loggers := map[int]echo.Logger{}
 		ctxIDs := map[string]int{}
+		var callerOwned, callerCopy [][]string
 		observe := func(c echo.Context, hid int) {
 			if cur.observed {
 				return
@@ -192,6 +193,8 @@ func genC05(rng *rand.Rand, n int, emit func(Case), dist map[string]int) {
 					}
 					steps = append(steps, func(c echo.Context) { c.SetParamValues(vs...) })
 					st.prog = append(st.prog, L(I(4), LS(vs)))
+					callerOwned = append(callerOwned, vs)
+					callerCopy = append(callerCopy, append([]string(nil), vs...))
 				case 6:
 					steps = append(steps, func(c echo.Context) { c.QueryParams() })
 					st.prog = append(st.prog, L(I(5)))
@@ -273,6 +276,12 @@ func genC05(rng *rand.Rand, n int, emit func(Case), dist map[string]int) {
 			}
 			if st.observed && Show(st.obs) != wantObs && ok {
 				ok, why = false, fmt.Sprintf("request %d (%s) observed %s, a fresh context would show %s", st.id, path, Show(st.obs), wantObs)
+			}
+			// slices handed to SetParamValues stay the caller's: echo must not keep or rewrite them later
+			for i := range callerOwned {
+				if ok && strings.Join(callerOwned[i], ",") != strings.Join(callerCopy[i], ",") {
+					ok, why = false, fmt.Sprintf("after request %d the caller's slice passed to SetParamValues earlier reads %q instead of %q: the context kept and rewrote it while serving other requests", st.id, callerOwned[i], callerCopy[i])
+				}
 			}
 			if hid == 0 && rec.Code != 404 && ok {
 				ok, why = false, fmt.Sprintf("unmatched request %s answered %d", path, rec.Code)
